@@ -23,6 +23,10 @@ TRC = ["fb_trc", "fb_trc_basic", "fb_trc_quick"]
 EXP = ["fb_exp", "fb_exp_basic", "fb_exp_slide", "fb_exp_monty"]
 RDC = ["fb_rdc", "fb_rdc_basic", "fb_rdc_quick"]
 
+# tiny world, thorough tier: the routines driven on EVERY element of the field (the defaults and the table / low-level paths)
+FULL_OPS = ["fb_sqr", "fb_sqr_basic", "fb_inv", "fb_inv_basic", "fb_inv_binar", "fb_inv_itoht", "fb_inv_lower", "fb_srt",
+            "fb_srt_basic", "fb_slv", "fb_slv_basic", "fb_trc", "fb_trc_basic"]
+
 EB_UN = ["eb_neg", "eb_neg_basic", "eb_neg_projc", "eb_dbl", "eb_dbl_basic", "eb_dbl_projc", "eb_norm"]
 EB_BIN = ["eb_add", "eb_add_basic", "eb_add_projc", "eb_sub", "eb_sub_basic", "eb_sub_projc"]
 EB_MUL = ["eb_mul", "eb_mul_basic", "eb_mul_lodah", "eb_mul_lwnaf", "eb_mul_rwnaf", "eb_mul_halve"]
@@ -228,7 +232,7 @@ def gen_field(F, rng, tier, exhaustive=False, ext=True, budget=1.0, full_variant
             pairs = keep + rng.sample(pairs, nr(260) - len(keep))
         pairs += [(F.rnd(rng), F.rnd(rng)) for _ in range(nr(80 if quick else 600))]
         if exhaustive:
-            pairs += [(rng.randrange(1 << m), rng.randrange(1 << m)) for _ in range(nr(1500 if quick else 20000))]
+            pairs += [(rng.randrange(1 << m), rng.randrange(1 << m)) for _ in range(nr(1500 if quick else 8000))]
         for (a, b) in pairs:
             al = k % 5
             k += 1
@@ -237,7 +241,7 @@ def gen_field(F, rng, tier, exhaustive=False, ext=True, budget=1.0, full_variant
     for group in (SQR, INV, SRT, SLV):
         for gi, op in enumerate(group):
             if exhaustive and not quick:
-                ins = allel if (gi == 0 or full_variants) else rng.sample(allel, nr(20000)) + cs
+                ins = allel if (full_variants and op in FULL_OPS) else rng.sample(allel, nr(8000)) + cs
             elif exhaustive:
                 ins = rng.sample(allel, nr(3000 if gi == 0 else 800)) + cs
             else:
@@ -254,7 +258,7 @@ def gen_field(F, rng, tier, exhaustive=False, ext=True, budget=1.0, full_variant
         inv_one += [F.line(op, i, hx(v)) for op in ("fb_srt", "fb_srt_quick") for i, v in enumerate([1 << (m - 1), (1 << m) - 1])]
     for gi, op in enumerate(TRC):
         if exhaustive and not quick:
-            ins = allel if (gi == 0 or full_variants) else rng.sample(allel, nr(20000)) + cs
+            ins = allel if (full_variants and op in FULL_OPS) else rng.sample(allel, nr(8000)) + cs
         elif exhaustive:
             ins = rng.sample(allel, nr(2000 if gi == 0 else 600)) + cs
         else:
@@ -707,8 +711,8 @@ def tiny_scalar_cases(cv, rng, quick, ops=None, count=None):
         if quick:
             ks = corner + [rng.randrange(-n, top) for _ in range(count or 250)]
         else:
-            ks = corner + (allk if op in ("eb_mul_lwnaf", "eb_mul_rwnaf", "eb_mul_halve") else
-                           [rng.randrange(-n, top) for _ in range(count or 4000)])
+            ks = corner + (allk if op == "eb_mul_lwnaf" else
+                           [rng.randrange(-n, top) for _ in range(count or (20000 if op in ("eb_mul_rwnaf", "eb_mul_halve") else 4000))])
         ks = ks + rng.sample(longk, 1)
         pts = [G, "m%x" % rng.randrange(2, n)]
         for i, k in enumerate(ks):
